@@ -57,8 +57,8 @@ def plan(tier, which):
         if which == "C02":
             small = ["P3c-t", "P3u-t", "F3-t", "S3-t", "P3c", "S3", "P3h-t"]
         pl = [(n, [], "asan-ubrecover", "-O1") for n in small]
-        pl += [("P200-t", ["--depth", "2", "--max-states", "3000"], "asan-ubrecover", "-O1"),
-               ("F256-t", ["--depth", "2", "--max-states", "3000"], "asan-ubrecover", "-O1")]
+        pl += [("P200-t", ["--depth", "2", "--max-states", "12000"], "asan-ubrecover", "-O1"),
+               ("F256-t", ["--depth", "2", "--max-states", "12000"], "asan-ubrecover", "-O1")]
         return pl
     small = ["P3c", "P3c-t", "P3u-t", "F3", "F3-t", "S3", "S3-t", "P3h-t", "S3h-t", "F3h"]
     pl = [(n, [], "asan-ubrecover", "-O1") for n in small]
